@@ -15,7 +15,7 @@ RULE = ('exhaustive: every subset of 8 registration keys (Use.ref, *.ref, Use.*,
         'kind, dict order); non-trivial = at least 2 keys registered')
 REQUIRED = {'references_checked': 1000, 'grammar_rrel_wins_checked': 50, 'default_provider_checked': 3,
             'rrel_string_checked': 50, 'falsy_provider_objects_cases': 50, 'cases_with_an_earlier_registration': 100,
-            'raising_provider_cases': 100}
+            'raising_provider_cases': 100, 'rrel_m_flag_string_cases': 24}
 
 KEYS = ['Use.ref', '*.ref', 'Use.*', '*.*', 'Other.ref', 'Use.refs', '*.refs', 'Other.*']
 
@@ -197,6 +197,64 @@ def raising(ctx, subset, gvariant, exc, rep):
                   {'registered': list(subset), 'grammar': g, 'model': text}, rep)
 
 
+MFLAG_GRAMMAR = """
+Model: imports*=Import defs*=Def uses*=Use;
+Import: 'import' importURI=STRING;
+Def: 'def' name=ID;
+Use: 'use' name=ID %s ('list' refs+=%s[','])?;
+"""
+
+
+def rrel_m_string(ctx, j, rep):
+    """A registered RREL string with the m flag (+m: - look into the models loaded through importURI as well) behaves like
+    the same expression written in the grammar: the imported files are loaded and searched."""
+    import os
+    import shutil
+    import tempfile
+    from textx import metamodel_from_str, TextXError
+    key = ['Use.ref', '*.ref', 'Use.*', '*.*', 'Use.refs', '*.refs'][j % 6]
+    expr = ['+m:defs', '+pm:defs', '+m:^defs', '+mp:defs'][(j // 6) % 4]
+    tmp = tempfile.mkdtemp(prefix='tvc32m_')
+    try:
+        with open(os.path.join(tmp, 'lib.m'), 'w') as f:
+            f.write('def a def b\n')
+        main = 'import "lib.m"\ndef c\nuse u1 a list b , c\nuse u2 c\n'
+        with open(os.path.join(tmp, 'main.m'), 'w') as f:
+            f.write(main)
+        out = {}
+        for how in ('grammar', 'registered'):
+            if how == 'grammar':
+                g = MFLAG_GRAMMAR % ('ref=[Def|ID|%s]' % expr, '[Def|ID|%s]' % expr)
+                mm = metamodel_from_str(g)
+            else:
+                g = MFLAG_GRAMMAR % ('ref=[Def]', '[Def]')
+                mm = metamodel_from_str(g)
+                attr = key.split('.')[1]
+                regs = {key: expr}
+                if attr == 'ref':
+                    regs['*.refs' if key != '*.*' else 'Use.refs'] = expr
+                elif attr == 'refs':
+                    regs['*.ref'] = expr
+                mm.register_scope_providers(regs)
+            res = []
+            # two loads on the same metamodel: the first one after the registration and a later one
+            for _ in range(2):
+                try:
+                    m = mm.model_from_file(os.path.join(tmp, 'main.m'))
+                    res.append(('ok', [(u.name, u.ref.name, os.path.basename(u.ref.parent._tx_filename),
+                                        [(x.name, os.path.basename(x.parent._tx_filename)) for x in u.refs]) for u in m.uses]))
+                except TextXError as e:
+                    res.append(('error', str(e)[:80].replace(tmp, '')))
+            out[how] = res
+        ctx.count('rrel_m_flag_string_cases')
+        ctx.case(('rrel-m-string', key, expr), True, {'key': key, 'expression': expr, 'outcomes': out} if j < 3 else None)
+        if out['grammar'] != out['registered'] or out['grammar'][0][0] != 'ok':
+            ctx.violation(None, 'RREL %r registered under %r gives %r, written in the grammar it gives %r' % (
+                expr, key, out['registered'], out['grammar']), {'key': key, 'expression': expr, 'files': {'main.m': main, 'lib.m': 'def a def b'}}, rep)
+    finally:
+        shutil.rmtree(tmp, ignore_errors=True)
+
+
 def space():
     out = []
     for n in range(len(KEYS) + 1):
@@ -214,6 +272,8 @@ def run(ctx):
     for i in ctx.indices(len(sp), 'exhaustive', exhaustive=True):
         subset, gv, kind, reverse = sp[i]
         one(ctx, subset, gv, kind, reverse, False, {'i': i})
+    for j in ctx.indices(24, 'rrel_m_strings', exhaustive=True):
+        rrel_m_string(ctx, j, {'m': j})
     rs = rspace()
     for j in ctx.indices(len(rs), 'raising', exhaustive=True):
         subset, gv = rs[j]
@@ -230,6 +290,8 @@ def rspace():
 
 
 def replay(ctx, rep):
+    if 'm' in rep:
+        return rrel_m_string(ctx, rep['m'], rep)
     if 'r' in rep:
         subset, gv = rspace()[rep['r']]
         return raising(ctx, subset, gv, EXCS[rep['r'] % len(EXCS)], rep)
